@@ -64,7 +64,7 @@ def _is_level1_product(prospective_file: str) -> bool:
         if check.startswith(b'<?xml'):
             end_xml_declaration = check.find(b'?>')
             if end_xml_declaration == -1:
-                raise ValueError('Poorly formed xml declaration\n\t`{}`'.format(check))
+                return False  # poorly formed xml declaration: not a level 1 product file
             check = check[end_xml_declaration+2:].strip()
         else:
             check = check.strip()
